@@ -284,6 +284,10 @@ def mon_C06(case):
         for a, b in zip(pops, pops[1:]):
             if a[0] in evicted_ids and b[2] < a[2] and False:
                 pass
+        if status == "rejected:nospace" and not pops and pre["kw"]:
+            # the rule evicts one at a time for as long as the coldest candidate is no hotter than the incoming key: a put
+            # that does not fit can only be refused after at least one resident key was considered (popped) and spared
+            yield finding("C06", st, f"put of weight {w} (free {free}, {len(pre['kw'])} resident keys) refused without any candidate having been considered", "C06/rejected-without-considering-a-victim")
         if (status == "accepted") != (space >= w):
             yield finding("C06", st, f"status {status} with {space} free after evictions for weight {w}", "C06/status-disagrees-with-space")
         if status == "accepted" and post["wu"] != pre["wu"] - sum(e[2] for e in evs) + w:
